@@ -22,9 +22,14 @@ def main() -> int:
         if str(m.get("status", "")).startswith("obsolete"):
             continue
         fired = r.get("fired", [])
-        if r["status"] in ("STALE", "ERROR"):
+        if r["status"] == "STALE" or (r["status"] == "ERROR" and not fired):
             print(d.name, r["status"], r.get("detail", "")[:200])
             continue
+        if r["status"] == "ERROR":
+            # other rule sets lose an anchor on this change (they stop with an analysis error); the rules that do decide it
+            # are recorded, the variant is replayed against their properties only
+            m["also"] = "rule sets of other properties stop with an analysis error on this change (anchor or instance floor): " + \
+                r.get("detail", "")[:300]
         m["expected_rules"] = fired
         m["props"] = sorted({x.split("-")[0] for x in fired}) or [m["property"]]
         own = m["property"] in m["props"]
